@@ -292,6 +292,14 @@ def check_port(port, node, pins_p, pins_n, detail, viols):
 def run_history(rng, out):
     from amaranth.build.res import ResourceManager, ResourceError
     table = gen_table(rng)
+    if table["connectors"] and rng.random() < 0.3:
+        # a resource whose first subsignal is fine and whose later subsignal names a connector pin that does not
+        # exist: the request is refused for a reason other than a pin conflict, after pins were already taken
+        c0 = table["connectors"][0]
+        table["resources"].append({"name": "dang", "number": 0, "dangling": True, "node": (
+            "group", [("ok", ("pins", ["Q0", "Q1"], "io", False, None, 12, {})),
+                      ("bad", ("pins", ["99"], "i", False, (c0[0], c0[1]), None, {}))], {})})
+        table["resources"].append({"name": "dang", "number": 1, "node": ("pins", ["Q1"], "o", False, None, None, {})})
     try:
         ress, conns = build_table(table)
         mgr = ResourceManager(ress, conns)
@@ -333,6 +341,8 @@ def run_history(rng, out):
             expect = "ResourceError"
         elif not override_legal(res["node"], ov):
             expect = "reject"
+        elif res.get("dangling"):
+            expect = "refused"
         else:
             lv = leaves(table, res)
             mine = []
@@ -355,6 +365,9 @@ def run_history(rng, out):
             if exc_origin(e) != "repo":
                 raise
             outcome = f"exception:{type(e).__name__}"
+        if expect == "refused" and outcome != "grant":
+            out["hist"]["refused-for-a-dangling-connector-pin:" + outcome] = out["hist"].get("refused-for-a-dangling-connector-pin:" + outcome, 0) + 1
+            outcome = "refused"
         hist.append([list(k), ov, outcome])
         out["hist"][f"outcome:{expect}->{outcome}"] = out["hist"].get(f"outcome:{expect}->{outcome}", 0) + 1
         if outcome != expect:
